@@ -60,7 +60,7 @@ PROPS = {
         "exhaustive": {"quick": False, "thorough": True},
         "rule": "sweep of the header routine (verif-tagged export) over (format, element count): thorough = every count with count*width in 0..16,777,215 plus the next 64 "
                 "(about 136M calls, exhaustive), quick = all counts <= 70000, +-300 around each border, seeded stride beyond; plus real items built through the factories at "
-                "counts {0,1, around 255|256 and 65535|65536, limit-1, limit, limit+1, limit+2} for all 14 formats, encoded, framed and decoded back - at the length-field borders also as a child of a list, alone and between siblings; SML: a two-element item of every format with a declared upper bound at and beyond the capacity of the format must be accepted. Oracle: reference header "
+                "counts {0,1, around 255|256 and 65535|65536, limit-1, limit, limit+1, limit+2} for all 14 formats - each size with four different payloads (a plain value, the largest value / all bits set, the smallest / sign bit only, a byte pattern with delimiter-like bytes; ASCII: x, DEL, NUL, percent sign) -, encoded, framed and decoded back - at the length-field borders also as a child of a list, alone and between siblings; SML: a two-element item of every format with a declared upper bound at and beyond the capacity of the format must be accepted. Oracle: reference header "
                 "(format code, shortest big-endian length, 1/2/3 bytes at exactly 255|256 and 65535|65536, refusal beyond the limit); factory succeeds iff count*width <= 16,777,215; "
                 "ToBytes() non-empty with that header and exact total length; decoder re-encodes to the same bytes. Non-trivial: count > 0; distinct by (format, count) by construction.",
         "assumptions": COMMON_ASSUMPTIONS + ["hook: pkg/ast/export_verif.go (build tag verif) only forwards to the unexported header routine"],
@@ -89,10 +89,10 @@ PROPS = {
         "floors": {"outcome:refused": ("job:TestC12Value", 0.15), "outcome:stored": ("job:TestC12Value", 0.3), "via:fill": ("job:TestC12Value", 0.3),
                    "msg:valid=false": ("job:TestC12Msg", 0.2), "msg:valid=true": ("job:TestC12Msg", 0.2)},
         "rule": "every factory x every accepted Go argument type (int..int64, uint..uint64, float32/64, bool, binary strings) x values at and beyond every boundary of the target "
-                "item type and of the Go type (plus random bit patterns), directly and through FillVariables; 7-bit / non-7-bit / invalid UTF-8 strings; variable names from a grammar of "
+                "item type and of the Go type (plus random bit patterns, magnitudes of every bit length and byte patterns with zero / all-ones / sign-bit halves), directly and through FillVariables; 7-bit / non-7-bit / invalid UTF-8 strings; variable names from a grammar of "
                 "valid and near-valid spellings at every site incl. duplicates within a node and across a tree; ellipsis placement/multiplicity; message factories and producers with "
                 "stream/function/wait/direction/session/name at and beyond their ranges (names with every Unicode space). Oracle: from the mathematical value (math/big): in the domain "
-                "=> no panic, the value read back from String() by an independent reader equals it (floats: rounded to the width) and ToBytes() == reference encoding; outside => panic. "
+                "=> no panic, the value read back from String() by an independent reader equals it (floats: rounded to the width) and ToBytes() == reference encoding, and the stored item shows the same printed text and the same bytes as a child of a list (alone, between siblings, inserted by a fill); outside => panic. "
                 "Non-trivial: value within 1 of a boundary of the target or Go type, or a refused case; distinct = FNV-64 of the case.",
         "notes": ["F4 magnitudes in (MaxFloat32, MaxFloat32 + half ulp] are EITHER; integers wider than 53 bits into F4 may be rounded once or twice (both accepted)"],
         "assumptions": COMMON_ASSUMPTIONS,
@@ -114,7 +114,7 @@ PROPS = {
                    "wait:resolves": ("job:TestC18", 0.1), "start:hsms": ("job:TestC18", 0.05), "fill:item-holding-the-placeholder-name": ("job:TestC18", 0.01)},
         "rule": "rapid-generated messages (complete or not: optional/decided wait bit, with/without session, templates with variables) x histories of 1..6 producer calls "
                 "(SetWaitBit true/false on odd/even functions and on decided wait bits; SetSessionIDAndSystemBytes with session ids -2,-1,0,..,65535,65536,.. and 0..8 system bytes; "
-                "FillVariables with subsets of the bindings, repeated keys, unknown keys and items that themselves hold a variable of the placeholder's name). Oracle: 8-field record model; after every call Name/StreamCode/FunctionCode/WaitBit/"
+                "FillVariables with subsets of the bindings, repeated keys, unknown keys and items that themselves hold a variable of the placeholder's name; about a quarter of the variable names are legal names that mean something else as text - T, f, L, u1, true, is_true, NaN, x[0] next to x, S1F1 -, the templates never pass through SML). Oracle: 8-field record model; after every call Name/StreamCode/FunctionCode/WaitBit/"
                 "Direction/SessionID/SystemBytes/Header/String/Variables/ToBytes of the result equal the model's (String against the directly constructed item, ToBytes against the "
                 "reference encoder), the receiver is unchanged, and the call panics iff the model says the result is invalid. Non-trivial: >= 2 calls of >= 2 different producers.",
         "assumptions": COMMON_ASSUMPTIONS,
@@ -230,7 +230,7 @@ PROPS = {
         "floors": {"literal:within": ("job:TestC15", 0.1), "literal:outside": ("job:TestC15", 0.2), "variable:small-bounds": ("job:TestC15", 0.03), "variable:huge-bounds": ("job:TestC15", 0.01)},
         "rule": "exhaustive: 4 declaration forms x 14 item types x lower, upper, actual element count in 0..5 (literal items, alone and as list children; lists of literal children; ASCII literals also as one run per character plus 1..3 empty runs; the violating item also twice on one line, position of the second report checked); ASCII "
                 "variables with every form and bounds 0..5 directly and carried through a list expansion; NewASCIINodeVariable over a grid of (min, max) incl. invalid ones. Random: bounds "
-                "with 1-25 digits incl. 2^31, 2^63, 2^64 borders, blanks inside the brackets, counts near the declared bounds. Oracle: a literal is accepted iff lower <= count <= upper "
+                "with 1-25 digits incl. 2^31, 2^63, 2^64 borders, bounds spelled with leading zeros (only spellings with one possible reading: value below 8 or a digit 8/9 present), blanks inside the brackets, counts near the declared bounds. Oracle: a literal is accepted iff lower <= count <= upper "
                 "(math/big; missing bound = unbounded) and then holds exactly that many elements; otherwise no message and an error at the line/column of the '[' token; an ASCII variable "
                 "keeps its bounds (printed back for bounds that fit, fixed point of print/parse), strings are accepted iff their length lies inside (probed at lower-1, lower, upper, upper+1, "
                 "0, 5), lower > upper is an error, FillInStringLength() returns the constructor arguments. Non-trivial: count within 1 of a declared bound, or a variable case.",
